@@ -282,6 +282,32 @@ class Repo:
 
     def func(self, short, qualname, inline=False):
         m = self.module(short)
+        if qualname not in m.functions and "." in qualname:
+            # a method that the class now inherits (template method in the
+            # base class): the base method, bound to this class so that calls
+            # through self resolve to the subclass's implementations
+            cname, mname = qualname.rsplit(".", 1)
+            ci = m.classes.get(cname)
+            if ci is not None:
+                for bc in self.mro(ci)[1:]:
+                    if mname in bc.methods:
+                        base = bc.methods[mname]
+                        cache = self.__dict__.setdefault("_bound_cache", {})
+                        k = (m.name, qualname)
+                        if k not in cache:
+                            bf = Function(base.module, qualname,
+                                          _copy.deepcopy(base.node), cls=ci)
+                            bf.module = m if base.module is m else base.module
+                            bf.inherited_from = base
+                            cache[k] = bf
+                        f = cache[k]
+                        if inline:
+                            icache = self.__dict__.setdefault(
+                                "_inline_cache", {})
+                            if f.key not in icache:
+                                icache[f.key] = inline_view(f)
+                            return icache[f.key]
+                        return f
         if qualname not in m.functions:
             # moved to another module of the package (and usually re-imported
             # here): follow it if the new home is unambiguous
@@ -1349,3 +1375,89 @@ def minishard_buffer_attr(repo):
                 if "OnDiskBytesDict" in names or names == {"dict"}:
                     return tgt.attr
     return "_chunk_buffer"
+
+
+def attr_constants(repo, cls):
+    """{attr: expression} for instance attributes that the class (and its
+    bases) assign exactly once, from an expression over other attributes and
+    the parameters the same method stores as attributes (`self.x = x`): such
+    an attribute is a name for that expression."""
+    counts, values = {}, {}
+    # a parameter handed to the base constructor is stored there under its
+    # own name (super().__init__(shard_spec) -> self.shard_spec = shard_spec)
+    stored_any = {}
+    for c in repo.mro(cls):
+        for mf in c.methods.values():
+            for st in ast.walk(mf.node):
+                if isinstance(st, ast.Assign) and len(st.targets) == 1 and \
+                        isinstance(st.targets[0], ast.Attribute) and \
+                        isinstance(st.targets[0].value, ast.Name) and \
+                        st.targets[0].value.id == "self" and \
+                        isinstance(st.value, ast.Name) and \
+                        st.value.id in mf.params and \
+                        st.targets[0].attr == st.value.id:
+                    stored_any[st.value.id] = st.targets[0].attr
+    for c in repo.mro(cls):
+        for mf in c.methods.values():
+            stored = {p_: a_ for p_, a_ in stored_any.items()
+                      if p_ in mf.params}
+            for st in ast.walk(mf.node):
+                if isinstance(st, ast.Assign) and len(st.targets) == 1 and \
+                        isinstance(st.targets[0], ast.Attribute) and \
+                        isinstance(st.targets[0].value, ast.Name) and \
+                        st.targets[0].value.id == "self" and \
+                        isinstance(st.value, ast.Name) and \
+                        st.value.id in mf.params:
+                    stored[st.value.id] = st.targets[0].attr
+            for st in ast.walk(mf.node):
+                tg = []
+                if isinstance(st, ast.Assign):
+                    tg = st.targets
+                elif isinstance(st, (ast.AugAssign, ast.AnnAssign)):
+                    tg = [st.target]
+                for t in tg:
+                    if isinstance(t, ast.Attribute) and \
+                            isinstance(t.value, ast.Name) and \
+                            t.value.id == "self":
+                        counts[t.attr] = counts.get(t.attr, 0) + (
+                            1 if isinstance(st, ast.Assign) else 2)
+                        if isinstance(st, ast.Assign) and st.value is not None:
+                            v = _copy.deepcopy(st.value)
+
+                            class R(ast.NodeTransformer):
+                                def visit_Name(self, n):
+                                    if n.id in stored and \
+                                            isinstance(n.ctx, ast.Load):
+                                        return ast.copy_location(
+                                            ast.Attribute(
+                                                value=ast.Name(id="self",
+                                                               ctx=ast.Load()),
+                                                attr=stored[n.id],
+                                                ctx=ast.Load()), n)
+                                    return n
+                            v = R().visit(v)
+                            locs = {n.id for n in ast.walk(v)
+                                    if isinstance(n, ast.Name)} - {"self", "np",
+                                                                   "numpy"}
+                            if not locs:
+                                values[t.attr] = v
+    return {a: v for a, v in values.items() if counts.get(a) == 1}
+
+
+def expand_attrs(expr, table, depth=3):
+    """expr with `self.<attr>` replaced by the attribute's defining
+    expression (see attr_constants), repeatedly."""
+    for _ in range(depth):
+        changed = [False]
+
+        class R(ast.NodeTransformer):
+            def visit_Attribute(self, n):
+                if isinstance(n.value, ast.Name) and n.value.id == "self" \
+                        and n.attr in table and isinstance(n.ctx, ast.Load):
+                    changed[0] = True
+                    return _copy.deepcopy(table[n.attr])
+                return self.generic_visit(n)
+        expr = R().visit(_copy.deepcopy(expr))
+        if not changed[0]:
+            break
+    return expr
